@@ -1626,10 +1626,21 @@ class Entity(Instance):
         )
 
     def _entity_declaration(self) -> TextBlock:
+        port_declarations = self._port_declarations()
+
         return TextBlock(
             [
                 f"entity {self._name} is",
-                IndentBlock(self._port_map()),
+                # an empty port clause 'port ( );' is not valid VHDL
+                *(
+                    [
+                        IndentBlock(
+                            TextBlock(title="port (", content=[port_declarations, ");"])
+                        )
+                    ]
+                    if len(port_declarations) != 0
+                    else []
+                ),
                 f"end {self._name};",
             ]
         )
